@@ -108,6 +108,7 @@ type Case struct {
 	Base     string        `json:"base,omitempty"` // "corpus:<file>" or "prog:<n>"
 	Muts     []Mut         `json:"muts,omitempty"`
 	Segs     []Seg         `json:"segs,omitempty"`
+	Tags     []string      `json:"tags,omitempty"`      // generator's labels (class seq: type.method at model state)
 	TimeoutS int           `json:"timeout_s,omitempty"` // 0 = default
 }
 
@@ -707,13 +708,15 @@ func genRaw(t *rapid.T) Case {
 }
 
 func gen(t *rapid.T) Case {
-	switch rapid.IntRange(0, 11).Draw(t, "class") {
+	switch rapid.IntRange(0, 13).Draw(t, "class") {
 	case 0, 1, 2:
 		return genMutation(t)
 	case 3, 4, 5:
 		return genShape(t)
-	case 6, 7, 8, 9:
+	case 6, 7, 8:
 		return genSem(t)
+	case 9, 10, 11:
+		return genSeq(t)
 	default:
 		return genRaw(t)
 	}
@@ -1043,6 +1046,7 @@ func oracle(c Case) vkit.Outcome {
 		out.NonTrivial = modified && len(bytes.Fields(src)) >= 3
 	}
 	out.Labels = []string{"class=" + class, "entry=" + c.Entry + " outcome=" + outcome, "class=" + class + " outcome=" + outcome}
+	out.Labels = append(out.Labels, c.Tags...)
 	if !utf8.Valid(src) {
 		out.Labels = append(out.Labels, "invalid-utf8")
 	}
@@ -1082,7 +1086,7 @@ func TestC07(t *testing.T) {
 		Level: "exploration",
 		Rule: "source texts: (a) 1-10 token-level mutations (delete/duplicate/swap/insert/replace/splice/truncate, dictionary of keywords, punctuation, directives, literals) of 114 corpus files and 20 small programs; " +
 			"(b) hostile shapes: 48 nesting forms to depth 1..1.5e6 (balanced and not), huge literals, unterminated constructs, directives in odd places, long chains, each in one of 43 syntactic contexts; (c) raw bytes incl. invalid UTF-8 and NUL; " +
-			"each handed to one of run / pipe / test / server under a sampled configuration. Non-trivial: not byte-identical to a valid base text and >= 3 tokens; distinct by entry+configuration+text.",
+			"each handed to one of run / pipe / test / server under a sampled configuration. (e) call sequences (2-12 calls, incl. misuse, half of it inside try/catch, blocking calls only inside goroutines, one object shared by 2 goroutines) on 1-3 stateful runtime objects: sync.Mutex, sync.RWMutex, sync.WaitGroup, buffered / unbuffered / nil channels, strings.Builder, strings.Reader, tables, sandboxed os.File, maps, labelled by type.method at model state; Non-trivial: not byte-identical to a valid base text and >= 3 tokens; distinct by entry+configuration+text.",
 		Assumptions: []string{
 			"cases run in a worker process; a crash seen in-process for run/pipe/test is reported only when the real ego binary also dies with a Go crash report on the same text",
 			"for the server entry the worker calling admin.RunCodeHandler is the host; a panic of the handler goroutine is recovered by router.ServeHTTP (HTTP 500) and is not a violation",
